@@ -129,9 +129,17 @@ func envConfigs(thorough bool) []EnvCfg {
 				r = append(r, EnvCfg{Chunk: ch, ErrWithLast: e%2 == 0, Len: true, Err: e, AfterErr: e % 2})
 			}
 		}
+		for _, tz := range []int{1, 2, 63, 64, 98, 99, 100, 101, 127, 128, 129, 255, 256, 300} {
+			for e := range termErrs {
+				r = append(r, EnvCfg{Chunk: 0, TailZeros: tz, Err: e, AfterErr: e % 2}, EnvCfg{Chunk: 7, TailZeros: tz, Err: e})
+			}
+		}
 		return r
 	}
 	i := 0
+	for ti, tz := range []int{1, 98, 99, 100, 128, 300} {
+		r = append(r, EnvCfg{Chunk: 100, TailZeros: tz, Err: ti % len(termErrs), AfterErr: ti % 2})
+	}
 	r = append(r, EnvCfg{Chunk: 1, Len: true, Err: 6}, EnvCfg{Chunk: 100, ErrWithLast: true, Len: true, Err: 7, AfterErr: 1}, EnvCfg{Chunk: 4096, Len: true, Err: 1})
 	for _, ch := range []int{0, 1, 7, 4097} {
 		for _, wl := range []bool{false, true} {
